@@ -39,7 +39,7 @@ if __name__ == "__main__":
     harvest()
     only = sys.argv[1:]
     rids = sorted(x for x in os.listdir(DST) if os.path.isdir(os.path.join(DST, x)) and (not only or x in only or x[:3] in only))
-    with ThreadPoolExecutor(8) as ex:
+    with ThreadPoolExecutor(16) as ex:
         results = list(ex.map(one, rids))
     lines = ["# Behaviour-preserving refactorings vs checks", "", "Each patch applied to a scratch copy of /repo HEAD; the pinned suite and every claimed check (--root) run on it.", "A check that does not exit 0 here is a false alarm (or an honest ANALYSIS-ERROR) to be triaged; see DESIGN.md 8.6.", "", "| refactoring | suite | checks not exiting 0 |", "|---|---|---|"]
     noisy = 0
